@@ -70,7 +70,7 @@ Count(c, s, ev) ==
     [procOk     |-> c.procOk + B(ProcOk(ev)),
      withTaus   |-> c.withTaus + B(HasTaus(J, ev)),
      ramped     |-> c.ramped + B(HasTaus(J, ev) /\ J.pre.cur # J.pre.tgt),
-     constRatio |-> c.constRatio + B(ProcOk(ev) /\ J.const /\ J.pre.const /\ (IsFft(J.kind) \/ J.orig.p > 0)),
+     constRatio |-> c.constRatio + B(ProcOk(ev) /\ J.steady /\ J.pre.steady /\ (IsFft(J.kind) \/ J.rp > 0)),
      setOk      |-> c.setOk + B(ev.ev = "set_ratio" /\ ev.res = "ok"),
      setRej     |-> c.setRej + B(ev.ev = "set_ratio" /\ ev.res = "err"),
      chunkOk    |-> c.chunkOk + B(ev.ev = "set_chunk" /\ ev.res = "ok"),
